@@ -66,6 +66,15 @@ Proof.
 Qed.
 Print Assumptions C03_prepass_removes_short_cycles.
 
+(* ... and all five exit conditions hold of the document the whole pre-pass returns: later loops only remove
+   references, which cannot create a short cycle (stated over the generated call list PREPASS) *)
+Theorem C03_prepass_result_has_no_short_cycles : forall d : snode,
+  let d' := prepass d in
+  no_short_pattern_cycle AFill d' /\ no_short_pattern_cycle AStroke d' /\
+  no_short_link_cycle TClipPath AClip d' /\ no_short_link_cycle TMask AMask d' /\ no_short_link_cycle TFilter AFilter d'.
+Proof. exact prepass_establishes. Qed.
+Print Assumptions C03_prepass_result_has_no_short_cycles.
+
 (* ---- frame theorem: a shape that carries no reference and sits below svg / g elements that carry
    none is converted whatever else the document contains (cycles of any kind and length included):
    if the document is parsed at all, the shape is in the produced tree ---- *)
